@@ -179,6 +179,7 @@ func runC06(c *Ctx) {
 	m.workers()
 	m.lifecycle()
 	m.deliveries()
+	m.errorCoverage()
 	m.noPanics()
 }
 
@@ -675,6 +676,51 @@ func (m *tqModel) abortOnFatal() {
 	if goInstr == nil || len(batchCalls) == 0 {
 		c.Missing("R6", "collectBatches:batch-goroutine", "cannot find the goroutine that runs the batch function")
 		return
+	}
+	// the batch function's error is reported on the error channel (R11 relies on it)
+	for _, af := range fn.AnonFuncs {
+		for _, ci := range CallsIn(af, FnName(m.enq)) {
+			cut := map[Edge]bool{}
+			nSend := 0
+			for _, b := range af.Blocks {
+				for _, in := range b.Instrs {
+					if sd, ok := in.(*ssa.Send); ok && IsLoadOfField(sd.Chan, "tq.TransferQueue", "errorc") {
+						nSend++
+						for i := range b.Succs {
+							cut[Edge{b, i}] = true
+						}
+						if len(b.Succs) == 0 {
+							cut[Edge{b, -1}] = true
+						}
+					}
+				}
+				if ifi, ok := lastInstr(b).(*ssa.If); ok {
+					cond, flip := stripNot(ifi.Cond)
+					if _, trueMeansNil, ok := IsErrNilCheck(cond); ok {
+						e := Edge{b, 1}
+						if trueMeansNil != flip {
+							e = Edge{b, 0}
+						}
+						cut[e] = true
+					}
+				}
+			}
+			escaped := false
+			for b := range ReachBlocks(ci.Block(), cut, nil) {
+				if _, ok := lastInstr(b).(*ssa.Return); ok {
+					sendHere := false
+					for _, in := range b.Instrs {
+						if sd, ok := in.(*ssa.Send); ok && IsLoadOfField(sd.Chan, "tq.TransferQueue", "errorc") {
+							sendHere = true
+						}
+					}
+					if !sendHere {
+						escaped = true
+					}
+				}
+			}
+			c.Check(nSend > 0 && !escaped, "R11", "collectBatches:batch-error-reported", p.InstrPos(ci), "a non-nil error of the batch function is always sent to the error channel", "the batch function's error can be dropped without being reported")
+		}
 	}
 	reach := ReachBlocks(ab.Block(), nil, nil)
 	c.Check(!reach[goInstr.Block()] || ab.Block() == goInstr.Block() && false, "R6", "collectBatches:abort-leaves-loop", p.InstrPos(ab),
@@ -1290,6 +1336,136 @@ func (m *tqModel) deliveries() {
 	}
 }
 
+// ---- R11: an object settled without transfer is covered by a reported error -------------------
+
+// Every decrement of the counter that is not a success must be explained on the same path: an
+// error was sent to the queue's error channel, or the 422 flag was raised, or the server
+// declared that no transfer is needed (no action), or the function goes on to return a
+// non-nil error (which collectBatches reports).
+func (m *tqModel) errorCoverage() {
+	c, p := m.c, m.p
+	for _, fn := range []*ssa.Function{m.enq, m.htr, m.addAd} {
+		loops := Loops(fn)
+		idx := 0
+		for _, b := range fn.Blocks {
+			for _, in := range b.Instrs {
+				if !isDone(in) {
+					continue
+				}
+				idx++
+				entry := fn.Blocks[0]
+				if l := LoopOf(loops, b); l != nil {
+					entry = l.Body
+				}
+				key := fmt.Sprintf("%s:Done@%s", FnName(fn), m.doneFlavor(in))
+				// coverage blocks
+				cut := map[Edge]bool{}
+				coveredInBlock := false
+				for _, cb := range fn.Blocks {
+					cov := false
+					for _, x := range cb.Instrs {
+						if x == in {
+							if cov {
+								coveredInBlock = true
+							}
+							break
+						}
+						if s, ok := x.(*ssa.Send); ok && IsLoadOfField(s.Chan, "tq.TransferQueue", "errorc") {
+							cov = true
+						}
+						if st, ok := x.(*ssa.Store); ok {
+							if fa, ok := st.Addr.(*ssa.FieldAddr); ok {
+								if _, f := fieldAddrName(fa); f == "unsupportedContentType" {
+									cov = true
+								}
+							}
+						}
+						if cc := AsCall(x); cc != nil && CalleeName(cc) == "(*tq.Meter).FinishTransfer" {
+							cov = true
+						}
+					}
+					if cov && cb != b {
+						for i := range cb.Succs {
+							cut[Edge{cb, i}] = true
+						}
+					}
+					if cov && cb == b {
+						coveredInBlock = true
+					}
+				}
+				// "no action" edge: x == nil where x is the action returned by Rel
+				for _, e := range PassEdges(fn, func(cond ssa.Value) (bool, bool) {
+					v, trueMeansNil, ok := IsErrNilCheck(cond)
+					if ok {
+						if call, idx, isRes := CallResult(v); isRes && idx == 0 && CalleeName(call.Common()) == "(*tq.Transfer).Rel" {
+							return trueMeansNil, true
+						}
+					}
+					return false, false
+				}) {
+					cut[e] = true
+				}
+				covered := coveredInBlock || !InstrReachable(entry, in, cut, m.noret)
+				if !covered {
+					// an error reported once before the loop covers every iteration (adapter could not start)
+					if l := LoopOf(loops, b); l != nil {
+						for e := range cut {
+							if e.From.Dominates(l.Header) && !l.Region[e.From] && LoopOf(loops, e.From) == nil {
+								covered = true
+							}
+						}
+					}
+				}
+				if !covered {
+					// by-return: every feasible return after this Done carries a non-nil error
+					byReturn := true
+					nRet := 0
+					Explore(nil, in, nil, m.noret, func(x ssa.Instruction, st PState) bool {
+						r, ok := x.(*ssa.Return)
+						if !ok {
+							return true
+						}
+						nRet++
+						ev := Resolve(r.Results[len(r.Results)-1], st)
+						if cst, ok := EvalConst(ev, st); ok && cst.Value == nil {
+							byReturn = false
+						}
+						if _, isErr := ev.Type().Underlying().(*types.Interface); !isErr {
+							byReturn = false
+						}
+						return false
+					})
+					covered = byReturn && nRet > 0
+				}
+				c.Check(covered, "R11", key, p.InstrPos(in), "an object settled without transfer is covered by a reported error (or success / no action needed / 422 notice)",
+					"an object can be settled (counter decremented) without having been transferred and without any error being reported: the caller sees success although the object was never delivered")
+			}
+		}
+	}
+}
+
+func (m *tqModel) doneFlavor(in ssa.Instruction) string {
+	b := in.Block()
+	var tags []string
+	for _, x := range b.Instrs {
+		if cc := AsCall(x); cc != nil {
+			switch CalleeName(cc) {
+			case "(*tq.Meter).FinishTransfer":
+				tags = append(tags, "success")
+			case "(*tq.TransferQueue).Skip":
+				tags = append(tags, "skip")
+			}
+		}
+		if s, ok := x.(*ssa.Send); ok && IsLoadOfField(s.Chan, "tq.TransferQueue", "errorc") {
+			tags = append(tags, "error")
+		}
+	}
+	if len(tags) == 0 {
+		tags = append(tags, "bare")
+	}
+	return fmt.Sprintf("%s/b%d", strings.Join(tags, "+"), b.Index)
+}
+
 // ---- R9: explicit panics reachable from the queue ----------------------------------------------
 
 func (m *tqModel) noPanics() {
@@ -1350,6 +1526,9 @@ var c06Canaries = []Canary{
 	{Name: "deliver-on-error", ExpectKey: "C06.R8", Edits: []Edit{{File: "tq/transfer_queue.go", Find: "			if errors.IsUnprocessableEntityError(res.Error) {\n				q.unsupportedContentType = true", Repl: "			if errors.IsUnprocessableEntityError(res.Error) {\n				for _, c := range q.watchers {\n					c <- res.Transfer\n				}\n				q.unsupportedContentType = true"}}},
 	{Name: "retries-not-closed", ExpectKey: "C06.R7", Edits: []Edit{{File: "tq/transfer_queue.go", Find: "	go func() {\n		defer close(retries)\n", Repl: "	go func() {\n"}}},
 	{Name: "worker-skips-done", ExpectKey: "C06.R5", Edits: []Edit{{File: "tq/adapterbase.go", Find: "		if t.Size < 0 {\n			err = errors.New(tr.Tr.Get(\"object %q has invalid size (got: %d)\", t.Oid, t.Size))\n		} else {", Repl: "		if t.Size < 0 {\n			continue\n		} else {"}}},
+	{Name: "silent-drop-on-batch-error", ExpectKey: "C06.R11", Edits: []Edit{{File: "tq/transfer_queue.go", Find: "			if hasNonRetriableObjects {\n				return next, errors.NewRetriableError(err)", Repl: "			if hasNonRetriableObjects && len(next) == 0 {\n				return next, errors.NewRetriableError(err)"}}},
+	{Name: "silent-drop-on-rel-error", ExpectKey: "C06.R11", Edits: []Edit{{File: "tq/transfer_queue.go", Find: "					q.errorc <- errors.Errorf(\"[%v] %v\", tr.Name, err)\n", Repl: ""}}},
+	{Name: "batch-error-dropped", ExpectKey: "C06.R11", Edits: []Edit{{File: "tq/transfer_queue.go", Find: "			retries, err = q.enqueueAndCollectRetriesFor(next)\n			if err != nil {\n				q.errorc <- err\n			}", Repl: "			retries, err = q.enqueueAndCollectRetriesFor(next)\n			if err != nil && !errors.IsRetriableError(err) {\n				q.errorc <- err\n			}"}}},
 	{Name: "done-elsewhere", ExpectKey: "C06.R4", Edits: []Edit{{File: "tq/transfer_queue.go", Find: "func (q *TransferQueue) Skip(size int64) {\n	q.meter.Skip(size)", Repl: "func (q *TransferQueue) Skip(size int64) {\n	if size < 0 {\n		q.wait.Done()\n	}\n	q.meter.Skip(size)"}}},
 	{Name: "partition-drops-empty", ExpectKey: "C06.R4", Edits: []Edit{{File: "tq/transfer_queue.go", Find: "		} else {\n			present = append(present, t)\n		}", Repl: "		} else if t.Size > 0 {\n			present = append(present, t)\n		}"}}},
 }
